@@ -298,10 +298,10 @@ def run(ctx):
                 f.write(json.dumps({"shape": sl, "steps": s, "skeleton": 1}) + "\n")
             for s in scheds:
                 f.write(json.dumps({"shape": sl, "steps": s}) + "\n")
-    ctx.cov["edges_replayed_on_impl"] = total_edges if not ctx.quick else 0
+    ctx.cov["schedule_graph_transitions"] = total_edges
     trace = os.path.join(ctx.scratch, "trace.ndjson")
     args = ["-schedules", sched_path, "-out", trace, "-seed", str(ctx.seed)]
-    args += ["-cap", "10", "-random", "2", "-rlen", "7"] if ctx.quick else ["-cap", "0", "-random", "40", "-rlen", "10"]
+    args += ["-cap", "10", "-random", "2", "-rlen", "7"] if ctx.quick else ["-cap", "120", "-random", "15", "-rlen", "10"]
     p = vlib.run_harness(binary, args, timeout=3000)
     out = json.loads(p.stdout.strip().splitlines()[-1])
     ctx.stage("real-run", **out)
@@ -318,7 +318,7 @@ def run(ctx):
         "a merge patch with an empty body is not counted as a mutating call",
     ]
     validate(ctx, trace)
-    ctx.cov["exhaustive"] = not ctx.quick
+    ctx.cov["exhaustive"] = False  # exhaustive in the model; the real code runs a per-kind sample of the transition cover
 
 
 def replay(ctx, obj):
